@@ -65,6 +65,19 @@ def fail(tag):
     return False
 
 
+def untraced():
+    """run concrete set-up code outside CrossHair's tracer (no symbolic value
+    may be touched inside); a no-op when replaying natively"""
+    try:
+        from crosshair.tracers import NoTracing, is_tracing
+        if is_tracing():
+            return NoTracing()
+    except Exception:
+        pass
+    import contextlib
+    return contextlib.nullcontext()
+
+
 class ND:
     """Nondeterministic choices drawn from a vector of solver variables."""
 
